@@ -1,6 +1,7 @@
 """C10 - taxon namespaces keep a stable one-to-one taxon/bit map and exact label lookups."""
 import copy as _copy
 import itertools
+import re
 
 from common import time_limit, hex6
 
@@ -16,21 +17,26 @@ MODELLED_NOT_VERIFIED = [
     "C10: Taxon objects are opaque ids with a string label; labels are non-empty strings over ASCII and Latin-1 letters (Python "
     "str.lower is re-implemented for that repertoire and differential-tested on every generated label); None labels, custom sort "
     "keys, negative bitmasks, annotations, TaxonNamespacePartition/Mapping and label_taxon_map are outside the model",
-    "C10: remove_taxon_label/discard_taxon_label are exercised with first_match_only=False only (with True the current code raises "
-    "TypeError before touching the namespace, which no clause of the statement speaks about)",
+    "C10: remove_taxon_label/discard_taxon_label with first_match_only=True are run on the implementation only (ops rmlf/dlf): the "
+    "current code raises TypeError before touching the namespace, which no clause of the statement speaks about; the harness "
+    "accepts 'nothing changed' or 'exactly the first match left' and tells the model which of the two happened",
+    "C10: the comparison with the model distinguishes only ImmutableTaxonNamespaceError from other documented refusals "
+    "(KeyError/IndexError/LookupError/ValueError are one class) and does not look at all_taxa_bitmask except where it is asked for",
     "C10: nexusprocessing.bitmask_as_newick_string is modelled in its repaired form (members placed by their own bit); "
     "escape_nexus_token's character class comes from the generated table Tables.protectDefault",
 ]
 EXPLANATION = ("Theorems about the state machine the driver runs, for arbitrary operation lists: the invariant (member list "
                "duplicate-free, members = keys of the index map, index < counter, the two index maps inverse of each other, memo "
                "coherent, members are existing Taxon objects) holds in every reachable world (inv_init, inv_step, inv_reachable); "
-               "bits_distinct, masks_distinct, taxon_bitmask_spec, bit_stable, counter_monotone, no_reuse, index_never_rebound (also "
-               "across clear), sort_perm; mask_roundtrip, newick_spec (repaired rendering), bitstring_spec; lookup_spec, "
-               "lookup_ops_spec, require_spec; immutable_spec; copy_bits, deepcopy_bits. None is _partial. Not proved: sortedness of "
-               "sort (only that it permutes the members), get_taxa/has_taxa_labels beyond their single-label scans (compared with "
-               "the implementation and checked by the oracle only).")
+               "bits_distinct, masks_distinct, taxon_bitmask_spec, bit_stable + bit_stable_history, counter_monotone(+_history), "
+               "no_reuse, index_never_rebound (also across clear); sort_perm, sort_sorted, sort_stable, sort_ops_spec; "
+               "mask_roundtrip, labels_mask_spec, newick_spec, newick_any_mask (arbitrary masks incl. dead bits), nwk_op_text (the "
+               "printed string), bitstring_spec; labelMatches_iff, lookup_spec, lookup_ops_spec, get_taxa_spec, get_taxa_ops_spec, "
+               "require_spec, remove_label_spec; immutable_spec(+_history); ctor_labels_spec, copy_bits, deepcopy_bits. None is "
+               "_partial. Renderings name taxa up to NEXUS token equivalence (escapeToken is not injective: `c d` and `c_d` can "
+               "both be written c_d); the constructor theorem covers iterables of label strings (mixed iterables: invariant only).")
 
-MUTATORS = {"mkns", "add", "addtaxa", "new", "newtaxa", "req", "rm", "del", "rml", "dl", "sort", "rev", "clear", "relabel",
+MUTATORS = {"rmlf", "dlf", "mkns", "add", "addtaxa", "new", "newtaxa", "req", "rm", "del", "rml", "dl", "sort", "rev", "clear", "relabel",
             "copy", "shallow", "deep", "setmut", "setcs", "mk"}
 
 BASE_LABELS = ["a", "A", "b", "B", "ab", "Ab", "aB", "AB", "c d", "c_d", "x'y", "e(f", "g,h", "É", "é", "Z", "z", "z1",
@@ -61,6 +67,8 @@ def enc_op(op):
         return ["new", str(op[1]), hex6(op[2])]
     if k == "newtaxa":
         return ["newtaxa", str(op[1])] + [hex6(l) for l in op[2]]
+    if k in ("rmlf", "dlf"):       # never sent to the model as such (see run_history); this is the case key only
+        return [k, str(op[1]), cflag(op[2]), hex6(op[3])]
     if k in ("req", "rml", "dl", "get", "find", "has"):
         return [k, str(op[1]), cflag(op[2]), hex6(op[3])]
     if k in ("sort", "setmut", "setcs"):
@@ -114,9 +122,10 @@ class World(object):
     def exc(self, e):
         if isinstance(e, self.err.ImmutableTaxonNamespaceError):
             return "Immutable"
+        # the statement only speaks about immutability; any other refusal the library documents is one class
         for cls in (KeyError, IndexError, LookupError, ValueError):
             if isinstance(e, cls):
-                return cls.__name__
+                return "Error"
         return "Internal(%s)" % type(e).__name__
 
     def kw(self, c):
@@ -187,6 +196,12 @@ class World(object):
                 return "ok", None
             if k == "dl":
                 ns.discard_taxon_label(op[3], **self.kw(op[2]))
+                return "ok", None
+            if k == "rmlf":
+                ns.remove_taxon_label(op[3], first_match_only=True, **self.kw(op[2]))
+                return "ok", None
+            if k == "dlf":
+                ns.discard_taxon_label(op[3], first_match_only=True, **self.kw(op[2]))
                 return "ok", None
             if k == "sort":
                 ns.sort(reverse=op[2])
@@ -268,7 +283,7 @@ class World(object):
                 except KeyError:
                     i = "?"
                 ms.append("%s.%s.%s" % (self.tid.get(id(t), "?"), i, hex6(t.label)))
-            out.append("m%sc%sa%d:%s" % (b01(ns.is_mutable), b01(ns.is_case_sensitive), ns.all_taxa_bitmask(), ",".join(ms)))
+            out.append("m%sc%s:%s" % (b01(ns.is_mutable), b01(ns.is_case_sensitive), ",".join(ms)))
         return "/".join(out)
 
 
@@ -320,29 +335,49 @@ def parse_newick_groups(s):
                     break
                 buf.append(s[j])
                 j += 1
-            pending = "".join(buf)
+            pending = ("q", "".join(buf))
             i = j + 1
         else:
             j = i
             while j < n and s[j] not in "(),;' \t\n":
                 j += 1
-            pending = s[i:j]
+            pending = ("b", s[i:j])
             i = j
     if top is None or stack:
         return None
-    if all(isinstance(x, str) for x in top):
+    if all(isinstance(x, tuple) for x in top):
         return ("flat", top)
-    if len(top) == 2 and all(isinstance(x, list) and all(isinstance(y, str) for y in x) for x in top):
+    if len(top) == 2 and all(isinstance(x, list) and all(isinstance(y, tuple) for y in x) for x in top):
         return ("sides", top[0], top[1])
     return None
 
 
-def norm_label(x):
-    return x.replace("_", " ").replace("\t", " ")
+def token_names(tok, label):
+    """does this Newick token name this label?  a quoted token is the label verbatim; in an unquoted token an
+    underscore stands for a blank (so `c_d` names both `c d` and `c_d` - the format cannot tell them apart)"""
+    kind, text = tok
+    if kind == "q":
+        return text == label
+    return text == label.replace(" ", "_").replace("\t", "_")
 
 
-def names(labels):
-    return sorted(norm_label(x) for x in labels)
+def names_exactly(tokens, labels):
+    """is there a one-to-one assignment of the tokens to the labels? (bipartite matching; the lists are short)"""
+    labels = list(labels)
+    if len(tokens) != len(labels):
+        return False
+    owner = [None] * len(labels)
+
+    def place(i, seen):
+        for j, l in enumerate(labels):
+            if j not in seen and token_names(tokens[i], l):
+                seen.add(j)
+                if owner[j] is None or place(owner[j], seen):
+                    owner[j] = i
+                    return True
+        return False
+
+    return all(place(i, set()) for i in range(len(tokens)))
 
 
 class Oracle(object):
@@ -394,13 +429,13 @@ class Oracle(object):
         inset = {id(t) for t in subset}
         if nwk is not None:
             p = parse_newick_groups(nwk)
-            want_l = names(t.label for t in members if id(t) in inset)
-            want_r = names(t.label for t in members if id(t) not in inset)
+            want_l = [t.label for t in members if id(t) in inset]
+            want_r = [t.label for t in members if id(t) not in inset]
             good = False
             if p is not None and p[0] == "sides":
-                good = names(p[1]) == want_l and names(p[2]) == want_r
+                good = names_exactly(p[1], want_l) and names_exactly(p[2], want_r)
             elif p is not None and p[0] == "flat":
-                good = (not subset or len(inset) == len(members)) and names(p[1]) == names(t.label for t in members)
+                good = (not subset or len(inset) == len(members)) and names_exactly(p[1], [t.label for t in members])
             if not good:
                 self.fail("render", "%s of namespace %d: Newick rendering %r of the bitmask of members %s does not name exactly those "
                           "taxa (members in order: %s)" % (kind_txt, n, nwk, [t.label for t in members if id(t) in inset],
@@ -522,7 +557,7 @@ class Oracle(object):
             elif kind == "find":
                 good = (not isexc) and len(raw) == len(want) and all(x is y for x, y in zip(raw, want))
             else:
-                good = (raw is True or raw is False) and raw == bool(want)
+                good = (not isexc) and bool(raw) == bool(want)
             if not good:
                 self.fail("lookup", "%s(%r, case=%s) on namespace %d (case-sensitive=%s, members %s) returned %s; matching members in order: %s" % (
                     {"get": "get_taxon", "find": "findall", "has": "has_taxon_label"}[kind], op[3], op[2], n, cs,
@@ -551,7 +586,7 @@ class Oracle(object):
                     op[4], op[2], op[3], n, [t.label for t in members], ret), k)
         elif kind == "hasall":
             want = all(self.matches(members, ecs(op[2]), l) for l in op[3])
-            if raw is not want:
+            if isexc or bool(raw) != want:
                 self.fail("lookup", "has_taxa_labels(%r, case=%s) on namespace %d (members %s) returned %s" % (
                     op[3], op[2], n, [t.label for t in members], ret), k)
         elif kind == "req":
@@ -599,7 +634,7 @@ class Oracle(object):
 def run_history(ctx, dendropy, opgen, pending, fixed_ops=None, kind="random"):
     """opgen(world, k) -> next op or None; or fixed_ops = a recorded list (replay)"""
     w = World(dendropy)
-    ops, outs = [], []
+    ops, outs, mops = [], [], []
     orc = Oracle(ctx, w, ops)
     k = 0
     while True:
@@ -617,6 +652,19 @@ def run_history(ctx, dendropy, opgen, pending, fixed_ops=None, kind="random"):
         with time_limit(20):
             ret, raw = w.call(op)
         after = orc.snap()
+        mop = op
+        if op[0] in ("rmlf", "dlf"):
+            # remove/discard_taxon_label(first_match_only=True): the statement does not say what they do; the current code
+            # refuses (TypeError) once there is a match.  Accepted: nothing changes, or exactly the first match leaves -
+            # the model is told which of the two happened, every other outcome shows up as a disagreement of the dumps.
+            bm_, _, _, bcs = before[op[1]]
+            same = len(after[op[1]][0]) == len(bm_) and all(x is y for x, y in zip(after[op[1]][0], bm_))
+            first = orc.matches(bm_, bcs if op[2] is None else op[2], op[3])
+            mop = ["all", op[1]] if (same or not first) else ["rm", op[1], w.tid[id(first[0])]]
+            if isinstance(raw, TypeError):
+                ctx.count("first_match_only raises TypeError (side finding, state unchanged)")
+            ret = "-"
+        mops.append(mop)
         outs.append(ret + " # " + w.dump())
         orc.after(k, op, ret, raw, before, after)
         k += 1
@@ -626,7 +674,7 @@ def run_history(ctx, dendropy, opgen, pending, fixed_ops=None, kind="random"):
     ctx.case([enc_op(o) for o in ops], nontrivial, sample={"ops": ops[:12], "n_ops": len(ops)}, kind=kind)
     for o in ops:
         ctx.count("op:" + o[0])
-    pending.append((hist_line(ops), ops, outs))
+    pending.append((hist_line(mops), ops, outs))
     return orc
 
 
@@ -695,6 +743,22 @@ def report(ctx, dendropy, ops, orc, shrink=True):
         ctx.fail(kind, what, {"ops": rops, "clause": kind})
 
 
+_MODEL_ERRS = {"ValueError", "LookupError", "KeyError", "IndexError"}
+_DUMP_MASK = re.compile(r"(m[01]c[01])a\d+:")
+
+
+def canon_model(out, ignore_ret):
+    """the model's `ret # dump` in the vocabulary of the comparison: non-immutability refusals are one class, the dump
+    does not show all_taxa_bitmask (compared only where it is asked for, op `all`)"""
+    ret, _, dump = out.partition(" # ")
+    ret = ret.strip()
+    if ret in _MODEL_ERRS:
+        ret = "Error"
+    if ignore_ret:
+        ret = "-"
+    return ret + " # " + _DUMP_MASK.sub(r"\1:", dump.strip())
+
+
 def flush(ctx, pending):
     if not pending:
         return
@@ -708,8 +772,9 @@ def flush(ctx, pending):
             ctx.disagree("hist", {"ops": ops}, " | ".join(outs)[:300], m[:300])
             continue
         for k, (a, b) in enumerate(zip(outs, mouts)):
-            if a.strip() != b.strip():
-                ctx.disagree(ops[k][0], {"ops": ops[:k + 1], "at": k}, a, b)
+            ign = a.startswith("- # ")
+            if a.strip() != canon_model(b, ign):
+                ctx.disagree(ops[k][0], {"ops": ops[:k + 1], "at": k}, a, canon_model(b, ign))
                 break
     del pending[:]
 
@@ -751,6 +816,7 @@ class RandomGen(object):
         pool += [case_variant(rng, l) for l in pool if rng.random() < 0.6]
         self.pool = pool
         self.burst = None
+        self.follow = None
 
     def label(self):
         return self.rng.choice(self.pool) if self.rng.random() < 0.9 else rand_label(self.rng)
@@ -832,10 +898,12 @@ class RandomGen(object):
             return ["rm", n, t] if t is not None else ["clear", n]
         if r < 0.57:
             return ["del", n, rng.randrange(len(members) + 1) if rng.random() < 0.9 or not members else 0]
-        if r < 0.62:
+        if r < 0.61:
             return ["rml", n, self.cflag(), self.label()]
-        if r < 0.67:
+        if r < 0.66:
             return ["dl", n, self.cflag(), self.label()]
+        if r < 0.67:
+            return [rng.choice(["rmlf", "dlf"]), n, self.cflag(), self.label()]
         if r < 0.74:
             return ["sort", n, rng.random() < 0.4]
         if r < 0.80:
@@ -875,9 +943,21 @@ class RandomGen(object):
             items = [self.label() for _ in range(rng.choice([0, 1, 2, 3, 4, 4, 5, 6, 8]))]
             return ["mkns", rng.random() < 0.25, items]
         if k < self.n_ops:
+            if self.follow is not None:
+                # a taxon that has just (re)joined: ask for its mask right away (a stale memo entry shows here)
+                fn, ft = self.follow
+                self.follow = None
+                members = list(w.nss[fn])
+                if ft is None and members:
+                    ft = w.tid[id(members[-1])]
+                if ft is not None:
+                    return ["bm", fn, ft]
             n = rng.randrange(len(w.nss))
             if rng.random() < 0.55:
-                return self.mutator(w, n)
+                op = self.mutator(w, n)
+                if op[0] in ("add", "new", "req") and rng.random() < 0.6:
+                    self.follow = (n, op[2] if op[0] == "add" else None)
+                return op
             return self.observer(w, n)
         if self.burst is None:
             self.burst = self.make_burst(w)
@@ -909,7 +989,7 @@ def resolve(sym, w, removed):
 SYMBOLS = [("new", 0, "a"), ("new", 0, "B"), ("req", 0, None, "A"), ("req", 0, True, "A"), ("req", 0, None, "c"),
            ("rm_pos", 0), ("rm_pos", 1), ("rm_pos", -1), ("readd",), ("rml", 0, None, "a"), ("dl", 0, True, "b"),
            ("sort", 0, False), ("sort", 0, True), ("rev", 0), ("clear", 0), ("relabel_pos", 0, "b"), ("relabel_pos", -1, "A"),
-           ("copy", 0), ("deep", 0), ("setmut", 0, False), ("setcs", 0, True), ("del", 0, 1)]
+           ("copy", 0), ("deep", 0), ("setmut", 0, False), ("setcs", 0, True), ("del", 0, 1), ("dlf", 0, None, "a")]
 BASES = [["b", "a", "A", "c"], ["x", "B", "b"]]
 
 
@@ -1009,4 +1089,16 @@ def replay(ctx, rec):
         run_history(ctx, dendropy, None, pending, fixed_ops=c["ops"], kind="replay")
         flush(ctx, pending)
     elif "line" in c:
-        ctx.note("string-function case: " + c["line"])
+        # a recorded disagreement of one of the two string functions (lower / esc)
+        from dendropy.dataio import nexusprocessing
+        ws = c["line"].split()
+        from common import unhex6
+        if ws[0] == "lower":
+            want = hex6(unhex6(ws[1]).lower())
+        else:
+            want = hex6(nexusprocessing.escape_nexus_token(unhex6(ws[3]), preserve_spaces=ws[1] == "1", quote_underscores=ws[2] == "1"))
+        got = ctx.ask([c["line"]])[0]
+        if got is not None:
+            ctx.compared()
+            if got.strip() != want:
+                ctx.disagree(ws[0], {"line": c["line"]}, want, got)
